@@ -218,6 +218,34 @@ def check(run):
         return PAIR_TARGETS if m["kind"] == "pair" else (["setfl", "DL_POLY_EAM"] if m["kind"] == "eam" else ["setfl_fs", "DL_POLY_EAM_fs"])
     for m in models[: run.n(60, 1000)]:
         e2e(m, rng.choice(targets_of(m)), rng.random() < 0.5, species_set(rng, m, allow_empty=False), rng.choice(["api", "cli"]))
+    # several views of ONE parsed file tabulated one after the other (seed C13_6: rows cached per parser object - wrapt proxies hash and compare like the wrapped
+    # parser, so a cache keyed on "the parser" is shared by every view): each view's table must be the table of ITS hand-edited file, whatever was tabulated before
+    nseq = 0
+    for m in models[: run.n(60, 600)]:
+        target = rng.choice(targets_of(m))
+        full = render(m, target)
+        cp = ConfigParser(io.StringIO(full))
+        filters = [(rng.random() < 0.5, species_set(rng, m, allow_empty=False)) for _ in range(rng.randint(2, 4))] + [(True, [])]
+        for step, (exclude, S) in enumerate(filters):
+            edited = render(m, target, keep_pred(exclude, S))
+            oc_e, out_e = impl.outcome_of(lambda: impl.config_tabulate(edited))
+
+            def go():
+                v = FilteredConfigParser(cp, exclude=S) if exclude else FilteredConfigParser(cp, include=S)
+                buf = io.StringIO()
+                Configuration().read_from_parser(v).write(buf)
+                return buf.getvalue()
+            oc_f, out_f = impl.outcome_of(go)
+            run.case(key=("e2e-seq", full, step, exclude, tuple(S)), kind="end-to-end-view-sequence/%s" % target)
+            run.traces += 1
+            if not ((oc_e == oc_f) and (oc_e != "ok" or out_e == out_f)):
+                nseq += 1
+                if nseq <= 2:
+                    run.fail("filter-views-share-state", "target %s: view %d of one parsed file (%s %s, after tabulating the views %s) tabulates to %s, its hand-edited file to %s" % (
+                        target, step + 1, "exclude" if exclude else "include", S, [("exclude" if e else "include", x) for e, x in filters[:step]],
+                        oc_f if oc_f != "ok" else "%d bytes" % len(out_f), oc_e if oc_e != "ok" else "%d bytes" % len(out_e)),
+                        dict(potable_file=full, hand_edited_file=edited, views_in_order=[("exclude" if e else "include", x) for e, x in filters[: step + 1]]))
+                break
     # species sets made ONLY of labels that occur nowhere in the file, and sets mixing one known with unknown labels: both modes, both routes, every model kind
     seen_kinds = set()
     for m in models:
